@@ -3,6 +3,7 @@ package bubble
 import (
 	"context"
 	"errors"
+	"runtime"
 	"testing"
 	"time"
 
@@ -184,6 +185,10 @@ func TestXTime(t *testing.T) {
 	n := envInt("VH_N", 60)
 	runs, leaks := 0, 0
 	put := func(evs []Ev, leak bool, msg string) {
+		// objects the library may keep in a sync.Pool (timers) must not travel from one bubble into the next:
+		// two collections empty every pool
+		runtime.GC()
+		runtime.GC()
 		if leak {
 			leaks++
 		}
@@ -228,6 +233,16 @@ func TestXTime(t *testing.T) {
 			}
 		}
 		put(runTicker(t, pr[0], pr[1], steps))
+	}
+	// directed: a Reset right after a tick, for every ordered pair of settings (the first period after the Reset
+	// must already obey the new d and jitter); the draws are random, so each pair is repeated
+	for _, a := range pairs {
+		for _, b := range pairs {
+			for rep := 0; rep < envInt("VH_RESETREPS", 6); rep++ {
+				put(runTicker(t, a[0], a[1], []jtStep{{A: "adv", D: a[0] + a[1]}, {A: "reset", D: b[0], J: b[1]}, {A: "adv", D: 3 * b[0]},
+					{A: "reset", D: a[0], J: a[1]}, {A: "adv", D: 2 * a[0]}}))
+			}
+		}
 	}
 	w.close()
 	report(Ev{"engine": "bubble", "subject": "xtime", "runs": runs, "events": w.n, "leaks": leaks})
